@@ -114,7 +114,7 @@ fn inv(op: &Op, _ctx: &dyn Context, data: &mut dyn CoordinateSet) -> usize {
         let coord = data.get_coord(i);
         let mut c = Coor4D::default();
         for j in 0..4_usize {
-            c[post[j]] = coord[j] * mult[post[j]];
+            c[post[j]] = coord[j] * mult[j];
         }
         data.set_coord(i, &c);
     }
